@@ -460,4 +460,143 @@ theorem readBack_time (h mi s us : Nat) (hv : (⟨1900, 1, 1, h, mi, s, us⟩ : 
     simp [toPy, timeToPython, dtToPython, passes, parseWith, hasDotF_t, fixMicro_bodyT _ hv, strptime_bodyT _ hv, dtOf]
   simp [readBack, Res.bind, hdb, hrt, hpy]
 
+/-- any NUL-free text written as a string literal into a TEXT-affinity column comes back unaltered -/
+theorem roundtrip_text (T : ColT) (s : Str) (hT : aff T = .text) (h0 : 0 ∉ s) :
+    roundtrip T (.str s) = .ok (.str s) := by
+  simp [roundtrip, lit, evalLit_quoteStr s h0, hT, applyAff, fetch]
+
+theorem aff_enum (vals : List Str) : aff (.enum vals) = .text := by
+  show affinityOf Extracted.ty_enum = .text
+  decide
+
+theorem readBack_string (s : Str) (h0 : 0 ∉ s) : readBack .string (.str s) = .ok (.str s) := by
+  simp [readBack, Res.bind, toDb, toPy, stringV, roundtrip_text .string s (by decide) h0]
+
+theorem readBack_unicode (s : Str) (h0 : 0 ∉ s) : readBack .unicode (.str s) = .ok (.str s) := by
+  simp [readBack, Res.bind, toDb, toPy, unicodeV, roundtrip_text .unicode s (by decide) h0]
+
+theorem readBack_enum (vals : List Str) (s : Str) (hs : s ∈ vals) (h0 : 0 ∉ s) :
+    readBack (.enum vals) (.str s) = .ok (.str s) := by
+  have hdb : toDb (.enum vals) (.str s) = .ok (.str s) := by simp [toDb, enumV, hs]
+  have hpy : toPy (.enum vals) (.str s) = .ok (.str s) := by simp [toPy, enumV, hs]
+  simp [readBack, Res.bind, hdb, hpy, roundtrip_text (.enum vals) s (aff_enum vals) h0]
+
+def intFamily (T : ColT) : Prop := T = .int ∨ T = .tinyInt ∨ T = .smallInt ∨ T = .mediumInt ∨ T = .bigInt
+
+theorem aff_intFamily (T : ColT) (h : intFamily T) : aff T = .integer := by
+  rcases h with rfl | rfl | rfl | rfl | rfl <;> decide
+
+theorem roundtrip_int (T : ColT) (i : Int) (ha : aff T = .integer ∨ aff T = .numeric) (h : int64 i = true) :
+    roundtrip T (.int i) = .ok (.int i) := by
+  rcases ha with ha | ha <;> simp [roundtrip, lit, evalLit_reprInt, h, ha, applyAff, fetch]
+
+theorem readBack_int (T : ColT) (hT : intFamily T) (i : Int) (h : int64 i = true) :
+    readBack T (.int i) = .ok (.int i) := by
+  have hrt := roundtrip_int T i (Or.inl (aff_intFamily T hT)) h
+  rcases hT with rfl | rfl | rfl | rfl | rfl <;> simp [readBack, Res.bind, toDb, toPy, intV, hrt]
+
+/-- outside int64 the cell is a REAL: the double nearest to the integer -/
+theorem store_int_outside (T : ColT) (hT : intFamily T) (i : Int) (h : int64 i = false) :
+    store (aff T) (reprInt i) = some (.real (.ofInt i)) := by
+  simp [store, evalLit_reprInt, h, aff_intFamily T hT, applyAff]
+
+theorem readBack_fk (i : Int) (h : int64 i = true) : readBack .fkInt (.int i) = .ok (.int i) := by
+  have hrt := roundtrip_int .fkInt i (Or.inl (by decide)) h
+  simp [readBack, Res.bind, toDb, toPy, fkFromPython, hrt]
+
+theorem readBack_bool (b : Bool) : readBack .bool (.bool b) = .ok (.bool b) := by
+  have ha : aff .bool = .numeric := by decide
+  cases b <;>
+    simp [readBack, Res.bind, toDb, toPy, boolV, roundtrip, lit, Extracted.boolTrue, Extracted.boolFalse, evalLit,
+      Extracted.nullLit, numLit, isDigit, valD, int64, ha, applyAff, fetch]
+
+theorem readBack_none (T : ColT) : readBack T .none = .ok .none := by
+  have hrt : roundtrip T .none = .ok .none := by
+    simp [roundtrip, lit, evalLit, Extracted.nullLit, applyAff, fetch]
+  cases T <;> simp [readBack, Res.bind, toDb, toPy, hrt, stringV, unicodeV, intV, boolV, floatV, dtFromPython,
+    dtToPython, dateToPython, timeToPython, enumV, binFromPython, binToPython, fkFromPython]
+
+theorem b64_idx_chr : ∀ i, i < 64 → b64idx (b64chr i) = some i := by decide
+theorem b64_chr_ne_pad : ∀ i, i < 64 → b64chr i ≠ 61 := by decide
+theorem b64_chr_plain : ∀ i, i < 64 → b64chr i ≠ 0 ∧ b64chr i ≠ 39 ∧ b64chr i < 128 := by decide
+
+theorem b64dec_enc (bs : Str) (hb : ∀ x ∈ bs, x < 256) : b64dec (b64enc bs) = some bs := by
+  fun_induction b64enc bs with
+  | case1 => simp [b64dec]
+  | case2 a =>
+    have ha : a < 256 := hb a (by simp)
+    have h0 := b64_idx_chr (a / 4) (by omega)
+    have h1 := b64_idx_chr (a % 4 * 16) (by omega)
+    simp [b64dec, h0, h1]; omega
+  | case3 a b =>
+    have ha : a < 256 := hb a (by simp)
+    have hbb : b < 256 := hb b (by simp)
+    have h0 := b64_idx_chr (a / 4) (by omega)
+    have h1 := b64_idx_chr (a % 4 * 16 + b / 16) (by omega)
+    have h2 := b64_idx_chr (b % 16 * 4) (by omega)
+    have n2 := b64_chr_ne_pad (b % 16 * 4) (by omega)
+    simp [b64dec, h0, h1, h2, n2]; omega
+  | case4 a b c rest ih =>
+    have ha : a < 256 := hb a (by simp)
+    have hbb : b < 256 := hb b (by simp)
+    have hc : c < 256 := hb c (by simp)
+    have h0 := b64_idx_chr (a / 4) (by omega)
+    have h1 := b64_idx_chr (a % 4 * 16 + b / 16) (by omega)
+    have h2 := b64_idx_chr (b % 16 * 4 + c / 64) (by omega)
+    have h3 := b64_idx_chr (c % 64) (by omega)
+    have n2 := b64_chr_ne_pad (b % 16 * 4 + c / 64) (by omega)
+    have n3 := b64_chr_ne_pad (c % 64) (by omega)
+    have := ih (fun x hx => hb x (by simp [hx]))
+    simp [b64dec, h0, h1, h2, h3, n2, n3, this]; omega
+
+theorem b64enc_plain (bs : Str) (hb : ∀ x ∈ bs, x < 256) : ∀ x ∈ b64enc bs, x ≠ 0 ∧ x ≠ 39 ∧ x < 128 := by
+  fun_induction b64enc bs with
+  | case1 => simp
+  | case2 a =>
+    have ha : a < 256 := hb a (by simp)
+    intro x hx
+    simp at hx
+    rcases hx with rfl | rfl | rfl
+    · exact b64_chr_plain _ (by omega)
+    · exact b64_chr_plain _ (by omega)
+    · decide
+  | case3 a b =>
+    have ha : a < 256 := hb a (by simp)
+    have hbb : b < 256 := hb b (by simp)
+    intro x hx
+    simp at hx
+    rcases hx with rfl | rfl | rfl | rfl
+    · exact b64_chr_plain _ (by omega)
+    · exact b64_chr_plain _ (by omega)
+    · exact b64_chr_plain _ (by omega)
+    · decide
+  | case4 a b c rest ih =>
+    have ha : a < 256 := hb a (by simp)
+    have hbb : b < 256 := hb b (by simp)
+    have hc : c < 256 := hb c (by simp)
+    intro x hx
+    simp at hx
+    rcases hx with rfl | rfl | rfl | rfl | hx
+    · exact b64_chr_plain _ (by omega)
+    · exact b64_chr_plain _ (by omega)
+    · exact b64_chr_plain _ (by omega)
+    · exact b64_chr_plain _ (by omega)
+    · exact ih (fun x hx => hb x (by simp [hx])) x hx
+
+theorem readBack_blob (bs : Str) (hb : ∀ x ∈ bs, x < 256) : readBack .blob (.bytes bs) = .ok (.bytes bs) := by
+  have hp := b64enc_plain bs hb
+  have h0 : 0 ∉ b64enc bs := fun h => (hp 0 h).1 rfl
+  have hasc : isAscii (b64enc bs) = true := by
+    simp only [isAscii, List.all_eq_true, decide_eq_true_eq]; exact fun x hx => (hp x hx).2.2
+  have hrt := roundtrip_text .blob (b64enc bs) (by decide) h0
+  simp [readBack, Res.bind, toDb, toPy, binFromPython, binToPython, stringV, hrt, hasc, b64dec_enc bs hb]
+
+theorem readBack_pickle (bs : Str) (hb : ∀ x ∈ bs, x < 256) : readBack .pickle (.pickled bs) = .ok (.pickled bs) := by
+  have hp := b64enc_plain bs hb
+  have h0 : 0 ∉ b64enc bs := fun h => (hp 0 h).1 rfl
+  have hasc : isAscii (b64enc bs) = true := by
+    simp only [isAscii, List.all_eq_true, decide_eq_true_eq]; exact fun x hx => (hp x hx).2.2
+  have hrt := roundtrip_text .pickle (b64enc bs) (by decide) h0
+  simp [readBack, Res.bind, toDb, toPy, binFromPython, binToPython, stringV, hrt, hasc, b64dec_enc bs hb]
+
 end SqlObjVerif.Codec
